@@ -74,7 +74,10 @@ var c11Methods = []c11Method{
 	{4, "SvcC", "C1", 4, &c11Rule{verb: "GET", tmpl: "/c11/by/{id}", key: c11Key{14, c11GET, true}}},
 	{5, "SvcL", "L1", 5, &c11Rule{verb: "GET", tmpl: "/c11/ll/{id}", key: c11Key{15, c11GET, true}}},
 	{6, "SvcX", "X1", 6, &c11Rule{verb: "GET", tmpl: "/c11/xx/{nofield}", key: c11Key{16, c11GET, false}}},
-	{7, "SvcC", "C2", 7, &c11Rule{verb: "GET", tmpl: "/c11/bx/{id}", key: c11Key{13, c11GET, true}}},
+	// the additional binding sits strictly below the node of A1's implicit '*' binding (which has no
+	// verb-specific binding of its own): removing C2 must not take A1's route with it
+	{7, "SvcC", "C2", 7, &c11Rule{verb: "GET", tmpl: "/c11/bx/{id}", key: c11Key{13, c11GET, true}, add: []c11Rule{
+		{verb: "GET", tmpl: "/c11.SvcA/A1/below", key: c11Key{18, c11GET, true}}}}},
 }
 
 // descriptor sets: id -> services (a service carries all its methods)
